@@ -247,6 +247,10 @@ class GraphRun:
                 m.state = self.slots[o["slot"] - 1]
             elif o["ev"] == "rebuild":
                 return self.rebuild(o["n"], o["x"])
+            elif o["ev"] == "flag_outdated":
+                m.nodes[self._name(o["n"])].flag_outdated()
+            elif o["ev"] == "node_update":
+                m.nodes[self._name(o["n"])].update()
             elif o["ev"] == "reload":
                 self.reload()
                 ev["auto"] = bool(self.model.auto_update)
@@ -312,6 +316,7 @@ GraphRun._configure_builder = lambda self, gb: None
 
 def gen_ops(rng, plan, nops, atoms=("a", "b", "c"), reload_ok=False):
     vals = [i + 1 for i, p in enumerate(plan) if p["kind"] == "v" and not p.get("seed_for")]
+    nonval = [i + 1 for i, p in enumerate(plan) if p["kind"] != "v"]
     seeded = any(p.get("seeded") for p in plan)      # (a rebuild would reset the model's seed nodes: not combined)
     nslots = 0
     ops = []
@@ -349,6 +354,13 @@ def gen_ops(rng, plan, nops, atoms=("a", "b", "c"), reload_ok=False):
             ops.append({"ev": "rebuild", "n": rng.choice(vals), "x": rng.choice(atoms) + str(rng.randint(6, 8))})
         elif r < 0.30 and reload_ok:
             ops.append({"ev": "reload"})
+        elif r < 0.36 and reload_ok and nonval:
+            # low-level node API: flag a node (and its outputs) outdated; later bring single nodes up to date by hand
+            # in an order that respects the graph (every input up to date first) or leave it to the model
+            i = rng.choice(nonval)
+            ops.append({"ev": "flag_outdated", "n": i})
+            if rng.random() < 0.5:
+                ops.append({"ev": "node_update_chain", "n": i})
         elif r < 0.45:
             i = rng.choice(vals)
             ops.append({"ev": "assign", "n": i, "x": rng.choice(atoms) + str(rng.randint(0, 2)),
@@ -368,12 +380,30 @@ def gen_ops(rng, plan, nops, atoms=("a", "b", "c"), reload_ok=False):
     return ops
 
 
+def run_ops(run, ops):
+    """Applies the operations; "node_update_chain" is expanded at run time into single-node updates of the outdated
+    caching nodes from n on, each only once all of its inputs report up to date."""
+    ev = []
+    for o in ops:
+        if o["ev"] != "node_update_chain":
+            ev.append(run.op(o))
+            continue
+        for j in range(o["n"], run.n + 1):
+            nd = run.model.nodes[run._name(j)]
+            if SPEC_KIND[run.plan[j - 1]["kind"]] == "c" and nd.outdated and not any(x.outdated for x in nd.all_input_nodes()):
+                e = run.op({"ev": "node_update", "n": j})
+                ev.append(e)
+                if e["raised"]:
+                    break
+    return ev
+
+
 def random_trace(rng, nmax=8, maxops=30):
     plan = gen_plan(rng, nmax, seeded_ok=True)
     run = GraphRun(plan)
     hdr = run.header(hidden=True)
     ops = gen_ops(rng, plan, rng.randint(5, maxops), reload_ok=True)
-    ev = [run.op(o) for o in ops]
+    ev = run_ops(run, ops)
     run.close()
     hdr["ops"] = ops
     return {"hdr": hdr, "ev": ev}
@@ -385,7 +415,7 @@ def replay_trace(hdr):
         run = GraphRun(plan)
         h = run.header(hidden=True)
         h["ops"] = hdr["ops"]
-        return {"hdr": h, "ev": [run.op(o) for o in hdr["ops"]]}
+        return {"hdr": h, "ev": run_ops(run, hdr["ops"])}
     plan = [{"kind": k, "inp": i} for k, i in zip(hdr["plan_kinds"], hdr["inp"])]
     for idx, p in enumerate(plan):
         if idx + 1 < len(plan) and plan[idx + 1]["kind"] == "p" and plan[idx + 1]["inp"] == [idx + 1]:
@@ -393,4 +423,4 @@ def replay_trace(hdr):
     run = GraphRun(plan)
     h = run.header(hidden=True)
     h["ops"] = hdr["ops"]
-    return {"hdr": h, "ev": [run.op(o) for o in hdr["ops"]]}
+    return {"hdr": h, "ev": run_ops(run, hdr["ops"])}
